@@ -3236,6 +3236,14 @@ class StateEngine(object):
                 """
                 event["data"] = data
 
+                """
+                Restore the Map or Parallel state's own retry info. The context
+                still holds the retry info of the Branch/Iterator state whose
+                event triggered this, which must not count against the Map or
+                Parallel state's Retriers.
+                """
+                context_state.pop("RetryCount", None)
+                context_state.pop("RetryTimeout", None)
                 if retry_count:
                     context_state["RetryCount"] = retry_count
                 if retry_timeout:
